@@ -558,6 +558,18 @@ func init() {
 					c.NonTrivial("shadow", fmt.Sprintf("%T", x))
 				}
 			}
+			if c.Idx%64 == 16 {
+				for si, x := range append(recEmbValues(0), append(recEmbValues(3), recEmbValues(40)...)...) {
+					if !c.Cur(7600+si, fmt.Sprintf("shapes=core\nembedded recursive struct: %T", x)) {
+						continue
+					}
+					v := reflect.ValueOf(x)
+					for ci := range encCfgs {
+						encCompare(c, 7600+si, "enc-diff", &encCfgs[ci], "direct", x, v.Type(), v, "")
+					}
+					c.NonTrivial("recemb", fmt.Sprintf("%T", x), fmt.Sprint(si))
+				}
+			}
 			if c.Idx%64 == 15 {
 				for si, x := range c01ElemKindContainers() {
 					if !c.Cur(7500+si, fmt.Sprintf("shapes=core\ncontainers of pointers to containers: %T", x)) {
